@@ -36,6 +36,9 @@ type Op struct {
 	Scribble bool `json:"scribble,omitempty"` // overwrite own entropy buffer / returned seed after the call
 	// the caller was idle for J milliseconds of simulated time before this call (clock seam; no argument of the call)
 	J int64 `json:"j,omitempty"`
+	// a garbage-collection cycle (and time for finalizers to run) is forced right after this call, before the caller
+	// re-inspects what it holds (no argument of the call)
+	GC bool `json:"gc,omitempty"`
 }
 
 func SetStr(s string) (plain, hx string) {
@@ -63,6 +66,7 @@ func (o *Op) Key() string {
 	c.Cap = 0
 	c.Shared = 0
 	c.J = 0
+	c.GC = false
 	b, _ := json.Marshal(&c)
 	s := sha256.Sum256(b)
 	return hex.EncodeToString(s[:12])
